@@ -245,16 +245,24 @@ theorem C13_position_opener (s : State) (st : Street) (hst : s.street cfg = some
   unfold openerOf
   simp only [hst, hop, playerIndices, hm]
 
-/-- a late-seated player's post (negative layout entry) and a seat without an entry never count -/
+/-- a late-seated player's post (negative layout entry) and a seat without an entry count for
+    nothing — exactly like having nothing in front of him, so it cannot even break a tie -/
 theorem C13_posts_do_not_count (s : State) (i : Nat) (h : blindEntry cfg i ≤ 0) (hb : 0 ≤ getI s.bets i) :
-    positionKey cfg s i ≤ 0 := by
+    positionKey cfg s i = 0 := by
   unfold positionKey sign
   split
   · omega
   · split
     · have : getI s.bets i * -1 = - getI s.bets i := by omega
-      omega
+      rw [this]; omega
     · simp
+
+/-- a genuine blind or straddle counts as what is in front of its poster -/
+theorem C13_blinds_count (s : State) (i : Nat) (h : 0 < blindEntry cfg i) (hb : 0 ≤ getI s.bets i) :
+    positionKey cfg s i = getI s.bets i := by
+  unfold positionKey sign
+  simp only [h, if_true, Int.mul_one]
+  omega
 
 /-- **Later rounds** (nothing in front of anybody — the bets have been collected — or antes only):
     the first seat after the button is designated. -/
@@ -279,16 +287,11 @@ theorem C13_heads_up_button_first (s : State) (st : Street) (hst : s.street cfg 
     (h1 : 0 ≤ getI s.bets 1) :
     openerOf cfg env s = .ok 1 := by
   obtain ⟨m, hm, hlt, hall⟩ := C13_position_opener (env := env) s st hst hop (by omega)
-  have hk0 : positionKey cfg s 0 = getI s.bets 0 := by
-    unfold positionKey sign; simp [h0]
+  have hk0 : positionKey cfg s 0 = getI s.bets 0 := C13_blinds_count s 0 h0 (by omega)
   have hk1 : positionKey cfg s 1 ≤ getI s.bets 1 := by
-    unfold positionKey sign
-    split
-    · omega
-    · split
-      · have : getI s.bets 1 * -1 = - getI s.bets 1 := by omega
-        omega
-      · simp [h1]
+    by_cases hp : 0 < blindEntry cfg 1
+    · rw [C13_blinds_count s 1 hp h1]; exact Int.le_refl _
+    · rw [C13_posts_do_not_count s 1 (by omega) h1]; exact h1
   have : m = 0 := by
     rcases Nat.lt_or_ge m 1 with h | h
     · omega
